@@ -70,6 +70,14 @@ std::unique_ptr<ASTNode> instantiate_generic_impl_method(
     const ASTNode *method, const std::map<std::string, std::string> &type_map,
     const GenericEnumPredicate &is_generic_enum = {});
 
+#ifdef CB_VERIF
+// verification hook (see generic_instantiation.cpp)
+std::string
+verif_substitute_type_string(const std::string &type_name,
+                             const std::map<std::string, std::string> &type_map,
+                             const GenericEnumPredicate &is_generic_enum);
+#endif
+
 // v0.11.0: インスタンス化キャッシュ（パフォーマンス最適化）
 // キャッシュキーを生成: "function_name<type1,type2,...>"
 std::string generate_cache_key(const std::string &function_name,
